@@ -2,16 +2,20 @@
 //
 // Records:
 //
-//	cfg0, "cfg", "probe", json_werr_ignored=<0|1>
-//	    witness probe: does dagjson.Encode report a failed Write?  (refmt's JSON encoder drops it on
-//	    the pinned tree; the model's c_werr_ignored flag for dag-json/json is set from this)
+//	cfg0, "cfg", "probe", store_latch=<0|1>,json_werr_ignored=<0|1>
+//	    witness probes: does dagjson.Encode report a failed Write (refmt's JSON encoder drops it:
+//	    the model's c_werr_ignored flag for dag-json/json), and does Store notice the failure
+//	    nevertheless (the write-error latch of fix 4c486a6: the model's [latch] flag)
 //	id, "load", form (l=Load r=LoadRaw p=LoadPlusRaw f=Fill), trusted, link (binary hex),
 //	    stream (chunks "+"-joined, hex), tail (eof | eofl = EOF returned with the last chunk |
 //	    err = sticky read error after the data | open = the opener fails), tables, observation
 //	    observation = <status>/<node dump | ->/<x raw hex | ->
 //	id, "store", proto, holder, value, wopen (0|1), cap (-1 | writer fails once more than cap bytes
-//	    would have been written, and keeps failing), commiterr (0|1), tables, observation
-//	    observation = <status>/<link hex | ->/commit=<0|1 committer invoked>/<x committed bytes | ->
+//	    would have been written, and keeps failing), sched ("-" | per-Write actions of the storage
+//	    writer, ","-separated: o = accept, f = fail this call only, s<n> = short write of n bytes),
+//	    commiterr (0|1), tables, observation
+//	    observation = <status>/<link hex | ->/commit=<0|1 committer invoked>/<x committed bytes | ->/
+//	                  cl:<status of ComputeLink on the same input>:<its link | ->
 //
 // tables: as in c05 (K<mhtype>=0|1 hasher registered, H<mhtype>.<data>=<digest>, E.., D..).
 package main
@@ -53,7 +57,9 @@ func loadCase(out *lib.Out, id string, form byte, trusted bool, linkBin string, 
 	tab := lib.NewLkTables()
 	tab.Hasher(pfx.MhType)
 	tab.Hash(pfx.MhType, data)
-	tab.Decode(pfx.Codec, data)
+	if impl, ok := lib.LkGlobalReg().Dec[pfx.Codec]; ok {
+		tab.Decode(impl, data)
+	}
 
 	lsys := cidlink.DefaultLinkSystem()
 	lsys.TrustedStorage = trusted
@@ -107,38 +113,39 @@ func loadCase(out *lib.Out, id string, form byte, trusted bool, linkBin string, 
 
 // ---- store cases
 
-func storeCase(out *lib.Out, id string, p lib.LkProto, holder string, v *lib.Val, wopen bool, capacity int, commitErr bool) {
+func storeCase(out *lib.Out, id string, p lib.LkProto, holder string, v *lib.Val, wopen bool, capacity int, sched string, commitErr bool) {
 	n, err := lib.BuildHolder(holder, v)
 	if err != nil {
 		return
 	}
 	tab := lib.NewLkTables()
 	tab.Hasher(p.MhType)
-	tab.Encode(p.Codec, v, n)
-	if chunks, eerr := lib.LkEncode(p.Codec, n); eerr == nil {
-		var acc []byte
-		if lib.LkTableCodec(p.Codec) {
-			tab.Hash(p.MhType, acc) // nothing accepted
-		}
-		for _, c := range chunks {
-			acc = append(acc, c...)
-			if lib.LkTableCodec(p.Codec) {
-				tab.Hash(p.MhType, acc) // every prefix that ends at a write boundary
+	if impl, ok := lib.LkGlobalReg().Enc[p.Codec]; ok {
+		tab.EncodeChunks(impl, v, n) // every codec: the write schedule counts the real Write calls
+		if chunks, eerr := lib.LkEncode(impl, n); eerr == nil {
+			var acc []byte
+			for _, c := range chunks {
+				acc = append(acc, c...)
 			}
+			tab.Hash(p.MhType, acc)
 		}
-		tab.Hash(p.MhType, acc)
+	}
+	var schedL []string
+	if sched != "-" && sched != "" {
+		schedL = strings.Split(sched, ",")
 	}
 	lsys := cidlink.DefaultLinkSystem()
 	invoked := false
 	var committed []byte
+	var wr *lib.LkWriter
 	lsys.StorageWriteOpener = func(linking.LinkContext) (io.Writer, linking.BlockWriteCommitter, error) {
 		if wopen {
 			return nil, nil, lib.LkErrWOpen
 		}
-		w := &lib.LkWriter{Cap: capacity}
-		return w, func(datamodel.Link) error {
+		wr = &lib.LkWriter{Cap: capacity, Sched: schedL}
+		return wr, func(datamodel.Link) error {
 			invoked = true
-			committed = append([]byte(nil), w.Buf.Bytes()...)
+			committed = append([]byte(nil), wr.Buf.Bytes()...)
 			if commitErr {
 				return lib.LkErrCommit
 			}
@@ -158,13 +165,22 @@ func storeCase(out *lib.Out, id string, p lib.LkProto, holder string, v *lib.Val
 	if err == nil && invoked {
 		bs = "x" + lib.Hex(string(committed))
 	}
-	obs := lib.LkErrClass(err, "encode") + "/" + ls + "/commit=" + b2s(invoked) + "/" + bs
-	out.Case(id, "store", p.Spec(), holder, v.Text(), b2s(wopen), fmt.Sprint(capacity), b2s(commitErr), tab.Text(), obs)
+	// digests of whatever reached the writer (a damaged block that was committed must be checkable)
+	if wr != nil {
+		tab.Hash(p.MhType, wr.Buf.Bytes())
+	}
+	var cl datamodel.Link
+	cerr := lib.Safely(func() error { var e error; cl, e = lsys.ComputeLink(p.LP(), n); return e })
+	cls := "-"
+	if !lib.IsPanic(cerr) && cl != nil {
+		cls = lib.Hex(cl.Binary())
+	}
+	obs := lib.LkErrClass(err, "encode") + "/" + ls + "/commit=" + b2s(invoked) + "/" + bs + "/cl:" + lib.LkErrClass(cerr, "encode") + ":" + cls
+	out.Case(id, "store", p.Spec(), holder, v.Text(), b2s(wopen), fmt.Sprint(capacity), sched, b2s(commitErr), tab.Text(), obs)
 }
 
-// probeJSONWriteErrors: witness of the known finding — does a Store through the dag-json codec
-// notice that the storage writer failed?  (refmt's JSON encoder drops the error of a failed Write.)
-func probeJSONWriteErrors() bool {
+// probeStoreLatch: does a Store through the dag-json codec notice that the storage writer failed?
+func probeStoreLatch() bool {
 	n, _ := lib.BuildBasic(lib.Map(lib.Entry{K: "a", V: lib.Int(1)}))
 	lsys := cidlink.DefaultLinkSystem()
 	lsys.StorageWriteOpener = func(linking.LinkContext) (io.Writer, linking.BlockWriteCommitter, error) {
@@ -172,6 +188,13 @@ func probeJSONWriteErrors() bool {
 	}
 	p := lib.LkProto{Version: 1, Codec: lib.LkDagJson, MhType: 0x12, MhLen: -1}
 	err := lib.Safely(func() error { _, e := lsys.Store(linking.LinkContext{}, p.LP(), n); return e })
+	return err != nil
+}
+
+// probeJSONWriteErrors: does the dag-json encoder itself drop the error of a failed Write?
+func probeJSONWriteErrors() bool {
+	n, _ := lib.BuildBasic(lib.Map(lib.Entry{K: "a", V: lib.Int(1)}))
+	err := lib.Safely(func() error { return lib.LkCodecs[lib.LkDagJson].Enc(n, &lib.LkWriter{Cap: 0}) })
 	return err == nil
 }
 
@@ -189,7 +212,7 @@ func mkBlock(p lib.LkProto, v *lib.Val) *block {
 	if err != nil {
 		return nil
 	}
-	chunks, err := lib.LkEncode(p.Codec, n)
+	chunks, err := lib.LkEncode(lib.LkGlobalReg().Enc[p.Codec], n)
 	if err != nil {
 		return nil
 	}
@@ -328,6 +351,48 @@ func faultCases(out *lib.Out, r *lib.Rng, bi int, b *block, others []*block, tho
 			}
 		}
 	}
+	// EMPTY reads — Read returning (0, nil), legal for an io.Reader ("nothing yet, retry"):
+	// (a) one before every byte position of the clean block and at true EOF, all four forms
+	//     (mid-block positions where refmt's byte reader is about to read a single byte fabricate a
+	//     zero byte on the pinned tree: known finding empty_read_mid_block, forms l/f only);
+	for i := 0; i <= len(data); i++ {
+		ch := lib.LkWithEmpty(lib.LkSplit(data, i), 0)
+		if i > 0 && i < len(data) {
+			ch = lib.LkWithEmpty(lib.LkSplit(data, i), 1)
+		} else if i == len(data) {
+			ch = lib.LkWithEmpty(one(data), 1)
+		}
+		for _, f := range forms {
+			loadCase(out, id("emp", f), f, false, b.link, ch, "eof")
+		}
+	}
+	// (b) right after the last genuine byte, before appended bytes (a decoder that takes "nothing
+	//     yet" for the end of the stream would stop there and the hash would cover only the genuine
+	//     prefix), and again at the true EOF; also with EOF delivered with the last chunk
+	for _, e := range exts {
+		m := append(append([]byte(nil), data...), e...)
+		for _, f := range forms {
+			loadCase(out, id("empext", f), f, false, b.link, lib.LkWithEmpty(lib.LkSplit(m, len(data)), 1), "eof")
+			loadCase(out, id("empext", f), f, false, b.link, lib.LkWithEmpty(lib.LkSplit(m, len(data)), 1, 1, 2), "eof")
+			loadCase(out, id("empextl", f), f, false, b.link, lib.LkWithEmpty(lib.LkSplit(m, len(data)), 1), "eofl")
+			if len(e) > 1 {
+				loadCase(out, id("empext3", f), f, false, b.link, lib.LkWithEmpty(lib.LkSplit(m, len(data), len(data)+1), 1, 2, 3), "eof")
+			}
+		}
+	}
+	// (c) empty reads at every boundary of a chunked, damaged block; before a read error; under
+	//     TrustedStorage at the end of the block
+	if len(data) > 2 {
+		m := append([]byte(nil), data...)
+		m[len(m)/2] ^= 0x10
+		for _, f := range forms {
+			loadCase(out, id("empflip", f), f, false, b.link, lib.LkWithEmpty(lib.LkSplit(m, 1, len(m)/2, len(m)-1), 0, 1, 2, 3, 4), "eof")
+			loadCase(out, id("emptrunc", f), f, false, b.link, lib.LkWithEmpty(one(data[:len(data)-1]), 1), "eof")
+			loadCase(out, id("emperr", f), f, false, b.link, lib.LkWithEmpty(one(data), 1), "err")
+			loadCase(out, id("emperr", f), f, false, b.link, lib.LkWithEmpty(one(data[:len(data)/2]), 1), "err")
+			loadCase(out, id("empt", f), f, true, b.link, lib.LkWithEmpty(one(data), 1), "eof")
+		}
+	}
 	// byte-at-a-time delivery, and a corrupted block delivered in chunks
 	var cuts []int
 	for c := 1; c < len(data); c++ {
@@ -346,14 +411,53 @@ func faultCases(out *lib.Out, r *lib.Rng, bi int, b *block, others []*block, tho
 func storeCases(out *lib.Out, bi int, b *block) {
 	k := 0
 	id := func(kind string) string { k++; return fmt.Sprintf("b%d.%s%d", bi, kind, k) }
-	storeCase(out, id("st"), b.proto, "basic", b.val, false, -1, false)
-	storeCase(out, id("stopen"), b.proto, "basic", b.val, true, -1, false)
-	storeCase(out, id("stcommit"), b.proto, "basic", b.val, false, -1, true)
-	// the writer fails at every byte offset (hence at every write of the encoder)
-	for c := 0; c <= len(b.data)+1; c++ {
-		storeCase(out, id("stcap"), b.proto, "basic", b.val, false, c, false)
+	st := func(kind string, wopen bool, capacity int, sched string, cerr bool) {
+		storeCase(out, id(kind), b.proto, "basic", b.val, wopen, capacity, sched, cerr)
 	}
-	storeCase(out, id("stcapc"), b.proto, "basic", b.val, false, len(b.data)/2, true)
+	st("st", false, -1, "-", false)
+	st("stopen", true, -1, "-", false)
+	st("stcommit", false, -1, "-", true)
+	// sticky: the writer fails at every byte offset (hence at every write of the encoder) and stays failed
+	for c := 0; c <= len(b.data)+1; c++ {
+		st("stcap", false, c, "-", false)
+	}
+	st("stcapc", false, len(b.data)/2, "-", true)
+	// transient: exactly write #i fails and later writes succeed; writes #i..#i+j fail; write #i is
+	// short (n < len(p), nil error) by 0, 1 and half of the chunk — for every write of the encoder
+	nb, _ := lib.BuildBasic(b.val)
+	chunks, err := lib.LkEncode(lib.LkGlobalReg().Enc[b.proto.Codec], nb)
+	if err != nil {
+		return
+	}
+	oks := func(n int) []string {
+		l := make([]string, n)
+		for i := range l {
+			l[i] = "o"
+		}
+		return l
+	}
+	for i := 0; i <= len(chunks); i++ { // i == len(chunks): a failure scheduled after the last write never happens
+		pre := oks(i)
+		st("stf", false, -1, strings.Join(append(pre, "f"), ","), false)
+		st("stff", false, -1, strings.Join(append(pre, "f", "f"), ","), false)
+		if i%3 == 0 {
+			st("stfff", false, -1, strings.Join(append(pre, "f", "f", "f"), ","), false)
+			st("stfc", false, -1, strings.Join(append(pre, "f"), ","), true)
+		}
+		ln := 0
+		if i < len(chunks) {
+			ln = len(chunks[i])
+		}
+		for _, n := range []int{0, 1, ln / 2, ln - 1, ln} {
+			if n < 0 || (n > 1 && n == ln/2 && n == ln-1) {
+				continue
+			}
+			st("sts", false, -1, strings.Join(append(pre, fmt.Sprintf("s%d", n)), ","), false)
+		}
+		if i%4 == 1 {
+			st("stsf", false, -1, strings.Join(append(pre, "s0", "o", "f"), ","), false)
+		}
+	}
 }
 
 func main() {
@@ -361,14 +465,14 @@ func main() {
 	fl := lib.ParseFlags()
 	out := lib.OpenOut(fl.Out)
 	defer out.Close()
-	out.Case("cfg0", "cfg", "probe", "json_werr_ignored="+b2s(probeJSONWriteErrors()))
+	out.Case("cfg0", "cfg", "probe", "store_latch="+b2s(probeStoreLatch())+",json_werr_ignored="+b2s(probeJSONWriteErrors()))
 	if fl.Replay != "" {
 		for _, line := range lib.ReadLines(fl.Replay) {
 			f := strings.Split(line, "\t")
 			switch {
 			case len(f) >= 8 && f[1] == "load":
 				loadCase(out, f[0], f[2][0], f[3] == "1", lib.UnHex(f[4]), lib.LkParseChunks(f[5]), f[6])
-			case len(f) >= 9 && f[1] == "store":
+			case len(f) >= 10 && f[1] == "store":
 				p, err := lib.LkParseProto(f[2])
 				if err != nil {
 					panic(err)
@@ -379,7 +483,7 @@ func main() {
 				}
 				c := 0
 				fmt.Sscan(f[6], &c)
-				storeCase(out, f[0], p, f[3], v, f[5] == "1", c, f[7] == "1")
+				storeCase(out, f[0], p, f[3], v, f[5] == "1", c, f[7], f[8] == "1")
 			}
 		}
 		return
@@ -456,7 +560,7 @@ func main() {
 		{lib.LkProto{Version: 1, Codec: lib.LkDagCbor, MhType: 0x99, MhLen: -1}, lib.Int(1)},
 	}
 	for i, x := range refused {
-		storeCase(out, fmt.Sprintf("refused%d", i), x.p, "basic", x.v, false, -1, false)
+		storeCase(out, fmt.Sprintf("refused%d", i), x.p, "basic", x.v, false, -1, "-", false)
 	}
 	// loads under a link whose codec / hasher nobody registered
 	for i, lb := range []string{"\x01\x99\x01\x12\x04abcd", "\x01\x71\x99\x01\x04abcd"} {
